@@ -45,7 +45,14 @@ def mutate(rng, s):
                    and sum(1 for x in s.cbs if x.name == c.name and x.at == c.at) > 1}
     ops = list(s.ops)
     for L in used:
-        conv_only = all(c.style == "conv" for c in s.cbs if c.provider == L)
+        # a listener can be attached late when nothing *depends* on it at construction: its callbacks are
+        # convention names, or named callbacks that some constructor-time provider offers as well
+        def has_ctor_twin(c):
+            return any(x.name == c.name and x.at == c.at and x.group == c.group and x.provider != L
+                       and x.provider in ("machine", "model") for x in s.cbs)
+        conv_only = all(c.style == "conv" or (c.style == "name" and not c.alias_of and has_ctor_twin(c)
+                                              and c.group not in ("cond", "unless"))
+                        for c in s.cbs if c.provider == L)
         if conv_only and rng.random() < 0.6:
             s.listeners_ctor.remove(L)
             pos = rng.randint(1, len(ops))
